@@ -23,6 +23,13 @@
 (*   CommandDefaults        fc solver: `phonopy-load` chooses symfc when     *)
 (*                          symmetrisation is on and no solver is named,     *)
 (*                          `phonopy` never does                            *)
+(*   NacFactorRule          the NAC unit-conversion factor in force is the   *)
+(*                          one given by the source of the NAC parameters    *)
+(*                          (first line of BORN, or the phonopy-yaml file),  *)
+(*                          else the default of the calculator OF THE LOADED *)
+(*                          OBJECT (the yaml's calculator when the structure *)
+(*                          comes from a yaml file) - never that of a        *)
+(*                          calculator option that did not define the object *)
 (*   ModePrecedence         exactly one of thermal properties / thermal      *)
 (*                          displacements / matrices / projected DOS / DOS   *)
 (*                          / moment follows a mesh run                      *)
@@ -31,8 +38,8 @@ EXTENDS Naturals, Sequences, FiniteSets, TLC
 CONSTANTS WCases,      \* set of [id, cmd, inp, s]
           Installed    \* fc solvers that can run in this environment
 
-VARIABLES wc, pc, status, calls, out, fcsrc, nacsrc, cellsrc
-wvars == <<wc, pc, status, calls, out, fcsrc, nacsrc, cellsrc>>
+VARIABLES wc, pc, status, calls, out, fcsrc, nacsrc, cellsrc, nacfac
+wvars == <<wc, pc, status, calls, out, fcsrc, nacsrc, cellsrc, nacfac>>
 
 S == wc.s
 Has(f) == f \in wc.inp
@@ -63,9 +70,10 @@ Call(name, arg) == [name |-> name, arg |-> arg]
 (* --- machine --------------------------------------------------------------- *)
 WInit == /\ wc \in WCases /\ pc = "start" /\ status = "running"
          /\ calls = <<>> /\ out = {} /\ fcsrc = "none" /\ nacsrc = "none" /\ cellsrc = "none"
+         /\ nacfac = "none"
 
 Fail(why) == /\ status' = "fail:" \o why /\ pc' = "exit"
-             /\ UNCHANGED <<wc, calls, out, fcsrc, nacsrc, cellsrc>>
+             /\ UNCHANGED <<wc, calls, out, fcsrc, nacsrc, cellsrc, nacfac>>
 
 (* -f / --fz : FORCE_SETS from phonopy_disp.yaml and calculator outputs; exits *)
 CreateForceSets ==
@@ -75,33 +83,43 @@ CreateForceSets ==
      ELSE /\ calls' = Append(calls, Call("create_force_sets", IF S.fsz THEN "zero" ELSE ""))
           /\ out' = {IF S.save_params THEN "phonopy_params.yaml" ELSE "FORCE_SETS"}
           /\ status' = "ok" /\ pc' = "exit"
-          /\ UNCHANGED <<wc, fcsrc, nacsrc, cellsrc>>
+          /\ UNCHANGED <<wc, fcsrc, nacsrc, cellsrc, nacfac>>
 
 (* crystal structure: calculator file + DIM, else a phonopy-yaml file *)
 CellInfo ==
   /\ pc = "start" /\ ~(S.fsets \/ S.fsz)
   /\ IF ~Load /\ Has("cell") /\ S.dim
-     THEN /\ cellsrc' = "cell" /\ pc' = "nac" /\ UNCHANGED <<wc, status, calls, out, fcsrc, nacsrc>>
+     THEN /\ cellsrc' = "cell" /\ pc' = "nac" /\ UNCHANGED <<wc, status, calls, out, fcsrc, nacsrc, nacfac>>
      ELSE IF ~Load /\ Has("cell") /\ ~S.dim
      THEN Fail("no supercell matrix")
      ELSE IF Has("yaml") \/ Has("disp")
-     THEN /\ cellsrc' = "yaml" /\ pc' = "nac" /\ UNCHANGED <<wc, status, calls, out, fcsrc, nacsrc>>
+     THEN /\ cellsrc' = "yaml" /\ pc' = "nac" /\ UNCHANGED <<wc, status, calls, out, fcsrc, nacsrc, nacfac>>
      ELSE Fail("no crystal structure")
 
-(* NAC parameters: the yaml file, else BORN; `phonopy --nac` requires them *)
+(* NAC parameters: the yaml file, else BORN; `phonopy --nac` requires them.     *)
+(* Which calculator the loaded Phonopy object has: that of the phonopy-yaml     *)
+(* file when the structure comes from one (and it records a calculator),       *)
+(* otherwise the calculator option.  The unit-conversion factor comes from the *)
+(* source of the parameters if it states one, else it is the default of the    *)
+(* object's calculator.                                                        *)
+ObjCalc == IF cellsrc = "yaml" /\ Has("yaml_calc") THEN "yaml" ELSE "option"
+FactorOf(src) ==
+  IF src = "yaml" /\ Has("yaml_nac_factor") THEN "yaml"
+  ELSE IF src = "BORN" /\ Has("BORN_factor") THEN "BORN"
+  ELSE "default:" \o ObjCalc
 WantNac == S.nac \/ (S.disp /\ Has("BORN"))
+SetNac(src) ==
+  /\ nacsrc' = src /\ nacfac' = FactorOf(src)
+  /\ calls' = Append(calls, Call("set_nac", src \o ":" \o FactorOf(src))) /\ pc' = "disp"
+  /\ UNCHANGED <<wc, status, out, fcsrc, cellsrc>>
 StoreNac ==
   /\ pc = "nac"
   /\ IF ~WantNac
-     THEN /\ pc' = "disp" /\ UNCHANGED <<wc, status, calls, out, fcsrc, nacsrc, cellsrc>>
-     ELSE IF cellsrc = "yaml" /\ Has("yaml_nac")
-     THEN /\ nacsrc' = "yaml" /\ calls' = Append(calls, Call("set_nac", "yaml")) /\ pc' = "disp"
-          /\ UNCHANGED <<wc, status, out, fcsrc, cellsrc>>
-     ELSE IF Has("BORN")
-     THEN /\ nacsrc' = "BORN" /\ calls' = Append(calls, Call("set_nac", "BORN")) /\ pc' = "disp"
-          /\ UNCHANGED <<wc, status, out, fcsrc, cellsrc>>
+     THEN /\ pc' = "disp" /\ UNCHANGED <<wc, status, calls, out, fcsrc, nacsrc, cellsrc, nacfac>>
+     ELSE IF cellsrc = "yaml" /\ Has("yaml_nac") THEN SetNac("yaml")
+     ELSE IF Has("BORN") THEN SetNac("BORN")
      ELSE IF Load
-     THEN /\ pc' = "disp" /\ UNCHANGED <<wc, status, calls, out, fcsrc, nacsrc, cellsrc>>
+     THEN /\ pc' = "disp" /\ UNCHANGED <<wc, status, calls, out, fcsrc, nacsrc, cellsrc, nacfac>>
      ELSE Fail("no BORN")
 
 (* -d : displacements, supercell files, phonopy_disp.yaml; exits *)
@@ -111,8 +129,8 @@ Displacements ==
      THEN /\ calls' = Append(calls, Call("generate_displacements", ""))
           /\ out' = {"phonopy_disp.yaml", "SUPERCELLS"}
           /\ status' = "ok" /\ pc' = "exit"
-          /\ UNCHANGED <<wc, fcsrc, nacsrc, cellsrc>>
-     ELSE /\ pc' = "fc" /\ UNCHANGED <<wc, status, calls, out, fcsrc, nacsrc, cellsrc>>
+          /\ UNCHANGED <<wc, fcsrc, nacsrc, cellsrc, nacfac>>
+     ELSE /\ pc' = "fc" /\ UNCHANGED <<wc, status, calls, out, fcsrc, nacsrc, cellsrc, nacfac>>
 
 (* force constants *)
 DatasetSrc ==
@@ -124,12 +142,12 @@ Produce(src) ==
   ELSE /\ fcsrc' = src
        /\ calls' = calls \o <<Call("set_dataset", src),
                               Call("produce_fc", IF FullFC THEN Solver \o ":full" ELSE Solver \o ":compact")>>
-       /\ pc' = "post" /\ UNCHANGED <<wc, status, out, nacsrc, cellsrc>>
+       /\ pc' = "post" /\ UNCHANGED <<wc, status, out, nacsrc, cellsrc, nacfac>>
 
 ReadFC(src) ==
   /\ fcsrc' = src
   /\ calls' = Append(calls, Call("set_fc", IF FullFC THEN src \o ":full" ELSE src \o ":compact"))
-  /\ pc' = "post" /\ UNCHANGED <<wc, status, out, nacsrc, cellsrc>>
+  /\ pc' = "post" /\ UNCHANGED <<wc, status, out, nacsrc, cellsrc, nacfac>>
 
 ForceConstants ==
   /\ pc = "fc"
@@ -159,7 +177,7 @@ PostProcess ==
   /\ calls' = calls \o PostCalls
   /\ out' = out \cup PostOut
   /\ pc' = "run"
-  /\ UNCHANGED <<wc, status, fcsrc, nacsrc, cellsrc>>
+  /\ UNCHANGED <<wc, status, fcsrc, nacsrc, cellsrc, nacfac>>
 
 (* phonon calculations *)
 QCalls ==
@@ -193,7 +211,7 @@ Run ==
      ELSE /\ calls' = calls \o QCalls \o BCalls \o MCalls
           /\ out' = out \cup QOut \cup BOut \cup MOut
           /\ pc' = "final"
-          /\ UNCHANGED <<wc, status, fcsrc, nacsrc, cellsrc>>
+          /\ UNCHANGED <<wc, status, fcsrc, nacsrc, cellsrc, nacfac>>
 
 (* summary *)
 Finalize ==
@@ -201,7 +219,7 @@ Finalize ==
   /\ out' = out \cup {IF S.save_params THEN "phonopy_params.yaml" ELSE "phonopy.yaml"}
   /\ calls' = Append(calls, Call("summary", ""))
   /\ status' = "ok" /\ pc' = "exit"
-  /\ UNCHANGED <<wc, fcsrc, nacsrc, cellsrc>>
+  /\ UNCHANGED <<wc, fcsrc, nacsrc, cellsrc, nacfac>>
 
 WNext == CreateForceSets \/ CellInfo \/ StoreNac \/ Displacements \/ ForceConstants \/ PostProcess \/ Run \/ Finalize
 WSpec == WInit /\ [][WNext]_wvars
@@ -246,6 +264,14 @@ OutputsComputed ==
   /\ (pc = "exit" /\ status = "ok") => out # {}
   /\ (status # "ok" /\ pc = "exit") => ~("summary" \in Names)
   /\ (pc = "exit") => status # "running"
+
+NacFactorRule ==
+  /\ (nacsrc = "none") <=> (nacfac = "none")
+  /\ (nacfac = "BORN") => (nacsrc = "BORN" /\ Has("BORN_factor"))
+  /\ (nacfac = "yaml") => (nacsrc = "yaml" /\ Has("yaml_nac_factor"))
+  /\ (nacfac = "default:yaml") => (cellsrc = "yaml" /\ Has("yaml_calc"))
+  /\ (nacfac = "default:option") => ~(cellsrc = "yaml" /\ Has("yaml_calc"))
+  /\ (nacsrc = "BORN" /\ Has("BORN_factor")) => nacfac = "BORN"
 
 CommandDefaults ==
   /\ (~Load /\ S.fccalc = "") => Solver = "traditional"
